@@ -23,9 +23,20 @@ func genC16(r *Rng, k int) *RunSpec {
 	a.ClockSkewS = int64(r.Intn(7200) - 3600)
 	a.ClockFine = r.Bool()
 	// stored objects with random member sets
-	members := []string{"content", "summary", "name", "published", "updated", "attributedTo", "url", "x-extension"}
+	members := []string{"content", "summary", "name", "published", "updated", "attributedTo", "url", "x-extension", "attachment", "location", "icon"}
 	val := func(m string, i int) interface{} {
 		switch m {
+		case "attachment", "icon":
+			// a member holding one embedded value; the stored one and the supplied one have different members of their own
+			if i < 50 {
+				return J{"type": "Document", "name": fmt.Sprint("stored-", m, i), "mediaType": "image/png", "url": fmt.Sprintf("https://%s/media/%d.png", hostA, i)}
+			}
+			return J{"type": "Image", "url": fmt.Sprintf("https://%s/media/new%d.jpg", hostA, i)}
+		case "location":
+			if i < 50 {
+				return J{"type": "Place", "name": fmt.Sprint("stored place ", i), "latitude": 1.5, "longitude": 2.5}
+			}
+			return J{"type": "Place", "name": fmt.Sprint("new place ", i)}
 		case "published":
 			return fmt.Sprintf("2019-0%d-01T00:00:00Z", 1+i%9)
 		case "updated":
@@ -174,6 +185,9 @@ func genC16(r *Rng, k int) *RunSpec {
 				delete(body, "target")
 			} else {
 				body["target"] = []interface{}{}
+			}
+			if r.Bool() {
+				body["origin"] = Pick(r, []interface{}{st.Col1, []string{st.OCol1, st.Col1}, J{"type": "Collection", "id": st.Col1}}) // an origin is not a target
 			}
 		}
 	}
